@@ -1,7 +1,10 @@
 // Quantifier-free instantiation of the UF axioms of DESIGN 3.1 / 3.3 over the cone of a query.
 package main
 
-import "strings"
+import (
+	"path/filepath"
+	"strings"
+)
 
 func (ts *TermStore) lookupUF(name string, args ...*Term) *Term {
 	var sb strings.Builder
@@ -48,6 +51,29 @@ func (ex *Exec) axioms(cone []*Term) []*Term {
 		case "uf:legacytitle":
 			// the derived title is never blank ("(untitled)" or a trimmed non-empty line)
 			out = append(out, ILt(IntC(0), t), Neq(UF("trim", SInt, t), IntC(0)))
+		case "uf:cleanpath":
+			// Clean never returns "" and is idempotent; on program literals it is computed
+			out = append(out, ILt(IntC(0), t))
+			if t.args[0].op != "uf:cleanpath" {
+				out = append(out, Eq(UF("cleanpath", SInt, t), t))
+			}
+			for _, l := range append([]string(nil), Lits.sorted...) {
+				out = append(out, Implies(Eq(t.args[0], IntC(Lits.Code(l))), Eq(t, IntC(Lits.Code(filepath.Clean(l))))))
+			}
+		case "uf:isabs":
+			for _, l := range append([]string(nil), Lits.sorted...) {
+				out = append(out, Implies(Eq(t.args[0], IntC(Lits.Code(l))), BoolC(filepath.IsAbs(l)).eqTerm(t)))
+			}
+		case "uf:hasprefix", "uf:hassuffix", "uf:contains":
+			if len(t.args) == 2 && t.args[1].IsConst() {
+				pat, ok := Lits.byCode[t.args[1].ival.Int64()]
+				if ok {
+					f := map[string]func(string, string) bool{"uf:hasprefix": strings.HasPrefix, "uf:hassuffix": strings.HasSuffix, "uf:contains": strings.Contains}[t.op]
+					for _, l := range append([]string(nil), Lits.sorted...) {
+						out = append(out, Implies(Eq(t.args[0], IntC(Lits.Code(l))), BoolC(f(l, pat)).eqTerm(t)))
+					}
+				}
+			}
 		case "uf:legacybody":
 			out = append(out, ILe(IntC(0), t))
 		case "uf:toupper", "uf:tolower", "uf:quote", "uf:trimprefix", "uf:trimsuffix", "uf:replaceall", "uf:boxstr":
@@ -71,4 +97,11 @@ func (ex *Exec) watchTerms(cone []*Term) []*Term {
 		}
 	}
 	return out
+}
+
+func (b *Term) eqTerm(t *Term) *Term {
+	if b == True {
+		return t
+	}
+	return Not(t)
 }
